@@ -7,7 +7,7 @@ from ..model import norm, NotConst, calls_in, stores_in, ShapeError, AnchorMissi
 from ..paths import enumerate_paths, facts_at, walk_shallow, enclosing_stmt
 from ..guards import Evaluator, atom_texts
 from ..codec import extract, feasible_branches, consistent_branch
-from .common import where, same_function, grid
+from .common import check_header_copy_first, where, same_function, grid
 
 FIELDS = ["apduType", "apduSeg", "apduMor", "apduSA", "apduSrv", "apduNak", "apduSeq", "apduWin", "apduMaxSegs", "apduMaxResp", "apduService", "apduInvokeID", "apduAbortRejectReason"]
 TYPE_NAMES = ["ConfirmedRequestPDU", "UnconfirmedRequestPDU", "SimpleAckPDU", "ComplexAckPDU", "SegmentAckPDU", "ErrorPDU", "RejectPDU", "AbortPDU"]
@@ -105,6 +105,7 @@ def r1(ctx):
     tv = _types(ctx)
     for i, n in enumerate(TYPE_NAMES):
         ctx.check("pduType[%s]" % n, tv[n] == i, where(m, prog.cls("apdu", n).node), "%s.pduType must be %d (found %r)" % (n, i, tv[n]))
+    check_header_copy_first(ctx, c, c.methods["decode"], "APCI.decode")
     enc = [b for b in extract(prog, c, c.methods["encode"], "encode") if consistent_branch(b)]
     dec = [b for b in extract(prog, c, c.methods["decode"], "decode") if consistent_branch(b)]
     ctx.count("encode_branches", len(enc))
